@@ -178,6 +178,8 @@ def finish_sym(res, specs, built, dagfiles, results, opts):
                 res.obligations += r['side']; res.discharged += r['side_ok']
                 if r['side_ok'] != r['side']:
                     res.undecided.append('%s path %d: side obligations %s' % (e.name, p.idx, r.get('side_fail')))
+                if r.get('den_roots'):
+                    nonfinite_replay(res, s, e, p, r, dbin, known)
                 approx = r.get('eps_switch', False) and opts.get('approx_ok', True)
                 bad_outcome = ('noraise' in p.notes and p.outcome.startswith('raise')) or ('mustraise' in p.notes and p.outcome == 'ret')
                 if bad_outcome:
@@ -230,6 +232,33 @@ def outcome_violation(res, s, e, p, r, dbin, known):
     fn = os.path.join(d, key.replace(':', '__').replace('=', '-') + '.json')
     json.dump({'property': res.pid, 'key': key, 'entry': e.name, 'path': p.idx, 'claim': 'outcome', 'inputs': {e.nodes[k].name: float(v) for k, v in asg.items()}, 'observed_outcome': got, 'declared': [k for k in ('noraise', 'mustraise') if k in p.notes], 'replay': {'binary': dbin}}, open(fn, 'w'), indent=1)
     res.violations.append((key, fn))
+
+def nonfinite_replay(res, s, e, p, r, dbin, known):
+    """A denominator can vanish on this path (solver: sat): replay the located zeros on the real double build and report
+    non-finite results."""
+    import math
+    if not dbin: return
+    rundir = os.path.join(build.WORK, 'run', res.pid)
+    for asg in r['den_roots']:
+        inp = os.path.join(rundir, 'replay_input_nf.txt')
+        with open(inp, 'w') as f:
+            for k, v in asg.items(): f.write('%s:%s %s\n' % (e.name, e.nodes[int(k)].name, float(v).hex()))
+        out = os.path.join(rundir, 'replay_out_nf.txt')
+        rc, txt = build.run_harness(dbin, out, [re_escape(e.name), '--input', inp])
+        for ce in dagm.load(out):
+            if ce.name != e.name or not ce.paths: continue
+            cp = ce.paths[0]
+            badv = [nm for nm, (lv, rv) in cp.cvals.items() if not (math.isfinite(lv) and math.isfinite(rv))] + [nm for nm, v in cp.outs.items() if isinstance(v, float) and not math.isfinite(v)]
+            if not badv: continue
+            key = '%s:p%d:nonfinite' % (e.name, p.idx)
+            if any(k2 == key for k2, _ in res.violations) or any(k2 == key for k2, _ in res.known): return
+            kf = match_known(known, key)
+            if kf: res.known.append((key, kf.get('what', ''))); return
+            d = os.path.join(VERIF, 'replay', res.pid); os.makedirs(d, exist_ok=True)
+            fn = os.path.join(d, key.replace(':', '__') + '.json')
+            json.dump({'property': res.pid, 'key': key, 'entry': e.name, 'path': p.idx, 'claim': badv[0], 'inputs': {e.nodes[int(k)].name: float(v) for k, v in asg.items()}, 'nonfinite_values': badv[:10],
+                       'replay': {'binary': dbin, 'reproduced': True}}, open(fn, 'w'), indent=1)
+            res.violations.append((key, fn)); return
 
 def validate(res, e, cp):
     import math
